@@ -196,7 +196,55 @@ def r2_3(ctx, R):
         if e[0] == "agg" and e[1].endswith("Result::Err"):
             v = strip_refs(e[2][0])
             ctx.ob("R2.3", ins, "INSERT:refusal-returns-argument", v[0] == "param", ins.loc(bb), expr_str(v))
+    _bookkeeping_borrows(ctx, R, res)
     return res
+
+
+def _bookkeeping_borrows(ctx, R, res):
+    """No `&mut` borrow of the occupied counter / free-list head escapes into a value or a callee: a guard struct holding
+    `&mut self.filled` (stepped from its destructor on an unwind path) moves the counter without its slot.  Allowed: the borrow is
+    consumed on the spot by the arithmetic-assignment operator it was taken for."""
+    fields = {f for f in (res.get("INSERT", (None, None))[0], res.get("INSERT", (None, None))[1]) if f}
+    sm = R.slot_enum[1]
+    n = 0
+    for b in ctx.facts.fn_bodies():
+        if not any(sm in (t or "") for t in b.locals[:b.arg_count + 1]) and not b.path.startswith(sm):
+            continue
+        fl = ctx.flow(b)
+        for bb in range(b.n):
+            if b.is_cleanup(bb):
+                continue
+            for s in b.stmts(bb):
+                if s["k"] != "assign" or s["rv"]["k"] != "ref" or not s["rv"].get("mut") or s["place"]["p"]:
+                    continue
+                pl = s["rv"]["place"]
+                fl_ = [e for e in pl["p"] if e["k"] == "field"]
+                if not fl_ or ("." + str(fl_[-1].get("name"))) not in fields or pl["p"][-1]["k"] != "field":
+                    continue
+                n += 1
+                esc = None
+                work, seen = [s["place"]["l"]], set()
+                while work and esc is None:
+                    x = work.pop()
+                    if x in seen:
+                        continue
+                    seen.add(x)
+                    for ub, ui, node in fl.uses_of_local(x):
+                        if ui == "term" and node["k"] == "call":
+                            nm = fn_name(node["func"].get("fn")) if node["func"]["k"] == "const" else None
+                            if not (nm and re.search(r"core::ops::(AddAssign|SubAssign)", nm)):
+                                esc = (ub, "passed to %s" % (nm or "an indirect call"))
+                        elif ui != "term" and node["k"] == "assign":
+                            rv = node["rv"]
+                            if rv["k"] == "aggregate":
+                                esc = (ub, "stored in a %s value" % (rv.get("adt") or rv.get("agg")))
+                            elif rv["k"] in ("use", "ref") and not node["place"]["p"]:
+                                work.append(node["place"]["l"])      # a plain move / reborrow: follow it
+                            elif node["place"]["p"] and rv["k"] == "use" and rv["op"].get("place", {}).get("l") == x:
+                                esc = (ub, "stored into a field")
+                ctx.ob("R2.3", b, "bookkeeping-borrow-does-not-escape#%d" % n, esc is None, b.loc(bb),
+                       "&mut %s %s" % (place_str(pl), "consumed on the spot" if esc is None else esc[1] + " at " + b.loc(esc[0])))
+    ctx.ob("R2.3", "<crate>", "mutable borrows of the bookkeeping fields examined", True, "", "%d" % n)
 
 
 def _path_returns_variant(body, fl, path, variant):
